@@ -6,3 +6,5 @@ package c18
 const preemptionPoints = false
 
 func installHook(h func(point string)) {}
+
+func installLock(h func(delta int)) {}
